@@ -236,7 +236,7 @@ type tcpWorld struct {
 	startedStep                   int64
 	probeDownSince                map[int]time.Time
 	probeDownPast                 map[int][][2]time.Time // finished probe-failure windows per backend
-	changeDone                    map[int64]int64 // step at which a membership change was requested -> step at which its task returned
+	changeDone                    map[int64]int64        // step at which a membership change was requested -> step at which its task returned
 	changeTasks                   map[int64]*simhook.Task
 	removed                       []removedHost
 	pendingRemoved                []removedHost
